@@ -9,7 +9,7 @@ from typing import Any
 import numpy as np
 
 
-def build(c: dict[str, Any], dtype):
+def build(c: dict[str, Any], dtype, via: str = "jnp"):
     import jax
     import jax.numpy as jnp
 
@@ -31,6 +31,11 @@ def build(c: dict[str, Any], dtype):
                 t = x * jnp.asarray(yv)
             else:
                 t = x ** (int(ex) if float(ex).is_integer() and c["ex"][1] == 1 else ex)
+            if via == "method":          # ndarray.sum reaches lax.reduce_sum directly; jnp.sum is a substituted primitive of its own
+                return t.sum(axis=axes, keepdims=keep)
+            if via == "lax":
+                r = jax.lax.reduce_sum(t, axes=tuple(a % 2 for a in axes))
+                return jnp.expand_dims(r, tuple(sorted(a % 2 for a in axes))) if keep else r
             return jnp.sum(t, axis=axes, keepdims=keep)
 
         return fn
@@ -55,33 +60,34 @@ def run_cases(cases: list[dict[str, Any]]) -> dict[str, Any]:
     for rec in cases:
         c = rec["c"]
         for dtype in ((np.float32,) if c["kind"] == "reduce" and c["prod"] == "pow" and c["ex"][1] != 1 else (np.float32, np.int32)):
-            x = np.array(rec["x"], dtype)
-            if c["kind"] != "reduce":
-                x = x.reshape(-1)
-            want = np.array(rec["want"], np.int64)
-            fn = build(c, dtype)
-            out["n"] += 1
-            tag = {"case": c, "dtype": np.dtype(dtype).name}
-            try:
-                ref = np.asarray(fn(jnp.asarray(x)))
-            except Exception as ex:  # noqa: BLE001
-                out["spec_vs_jax"].append({**tag, "why": f"JAX eager fails: {type(ex).__name__}: {str(ex)[:120]}"})
-                continue
-            if not np.allclose(ref.reshape(-1).astype(np.float64), want.reshape(-1), rtol=1e-5, atol=1e-4):
-                out["spec_vs_jax"].append({**tag, "why": f"spec {want.reshape(-1).tolist()} vs JAX {ref.reshape(-1).tolist()}"})
-                continue
-            try:
-                m = jax2onnx.to_onnx(fn, [jax.ShapeDtypeStruct(x.shape, dtype)])
-                _, got = U.run_model(m, {m.graph.input[0].name: x})
-            except Exception as ex:  # noqa: BLE001
-                out["export_failed"].append({**tag, "error": f"{type(ex).__name__}: {str(ex)[:160]}"})
-                continue
-            g = np.asarray(got[0])
-            ops = sorted({n.op_type for n in m.graph.node})
-            if g.shape != ref.shape:
-                out["problems"].append({**tag, "what": "shape", "detail": f"model {list(g.shape)} vs JAX {list(ref.shape)}", "ops": ops})
-            elif np.issubdtype(ref.dtype, np.integer) and not np.array_equal(g, ref):
-                out["problems"].append({**tag, "what": "values", "detail": f"model returns {g.reshape(-1).tolist()}, J2O_Fusion and JAX say {want.reshape(-1).tolist()}", "ops": ops})
-            elif not np.allclose(g.astype(np.float64).reshape(-1), want.reshape(-1), rtol=1e-5, atol=1e-4):
-                out["problems"].append({**tag, "what": "values", "detail": f"model returns {g.reshape(-1).tolist()}, J2O_Fusion and JAX say {want.reshape(-1).tolist()}", "ops": ops})
+          for via in (("method", "jnp", "lax") if c["kind"] == "reduce" else ("jnp",)):
+              x = np.array(rec["x"], dtype)
+              if c["kind"] != "reduce":
+                  x = x.reshape(-1)
+              want = np.array(rec["want"], np.int64)
+              fn = build(c, dtype, via)
+              out["n"] += 1
+              tag = {"case": c, "dtype": np.dtype(dtype).name, "via": via}
+              try:
+                  ref = np.asarray(fn(jnp.asarray(x)))
+              except Exception as ex:  # noqa: BLE001
+                  out["spec_vs_jax"].append({**tag, "why": f"JAX eager fails: {type(ex).__name__}: {str(ex)[:120]}"})
+                  continue
+              if not np.allclose(ref.reshape(-1).astype(np.float64), want.reshape(-1), rtol=1e-5, atol=1e-4):
+                  out["spec_vs_jax"].append({**tag, "why": f"spec {want.reshape(-1).tolist()} vs JAX {ref.reshape(-1).tolist()}"})
+                  continue
+              try:
+                  m = jax2onnx.to_onnx(fn, [jax.ShapeDtypeStruct(x.shape, dtype)])
+                  _, got = U.run_model(m, {m.graph.input[0].name: x})
+              except Exception as ex:  # noqa: BLE001
+                  out["export_failed"].append({**tag, "error": f"{type(ex).__name__}: {str(ex)[:160]}"})
+                  continue
+              g = np.asarray(got[0])
+              ops = sorted({n.op_type for n in m.graph.node})
+              if g.shape != ref.shape:
+                  out["problems"].append({**tag, "what": "shape", "detail": f"model {list(g.shape)} vs JAX {list(ref.shape)}", "ops": ops})
+              elif np.issubdtype(ref.dtype, np.integer) and not np.array_equal(g, ref):
+                  out["problems"].append({**tag, "what": "values", "detail": f"model returns {g.reshape(-1).tolist()}, J2O_Fusion and JAX say {want.reshape(-1).tolist()}", "ops": ops})
+              elif not np.allclose(g.astype(np.float64).reshape(-1), want.reshape(-1), rtol=1e-5, atol=1e-4):
+                  out["problems"].append({**tag, "what": "values", "detail": f"model returns {g.reshape(-1).tolist()}, J2O_Fusion and JAX say {want.reshape(-1).tolist()}", "ops": ops})
     return out
